@@ -214,3 +214,19 @@ def apalache_inductive(module, init="Init", indinv="IndInv", safety="Safety", ti
         return True, "; ".join(out)
     finally:
         shutil.rmtree(d, ignore_errors=True)
+
+
+def tlaps_prove(module_rel_path, timeout=600):
+    """Run tlapm on a proof module (copied to a scratch directory).  Returns (ok, summary line)."""
+    d = tempfile.mkdtemp(prefix="verif-tlaps-")
+    try:
+        shutil.copy(os.path.join(VERIF, module_rel_path), d)
+        try:
+            p = subprocess.run(["tlapm", os.path.basename(module_rel_path)], cwd=d, stdout=subprocess.PIPE, stderr=subprocess.STDOUT,
+                               text=True, timeout=timeout)
+        except (OSError, subprocess.TimeoutExpired) as e:
+            return False, "tlapm not runnable: %s" % e
+        m = re.search(r"All (\d+) obligations? proved", p.stdout)
+        return (m is not None), (m.group(0) if m else p.stdout[-400:])
+    finally:
+        shutil.rmtree(d, ignore_errors=True)
